@@ -622,6 +622,8 @@ pub enum Verdict {
     Reject,
     /// accepts iff the value equals this one
     AcceptIfEq(Value),
+    /// rejects with the n-th variant of the library's claim error type (a validator may return any of them)
+    RejectWith(u8),
     /// treats the value as a token of `proto` and parses it at `layer` under `key` from inside the validator
     /// (a rule for a claim that carries an embedded token); accepts iff that parse succeeds. A panic of the
     /// nested parse is re-raised, as it would reach the caller of the outer parse.
@@ -658,12 +660,27 @@ fn validator_body(slot: usize, key: &str, value: &Value) -> Result<(), PasetoCla
         Verdict::Accept => true,
         Verdict::Reject => false,
         Verdict::AcceptIfEq(v) => &v == value,
+        Verdict::RejectWith(_) => false,
         Verdict::ParseEmbedded { proto, layer, key: k } => match present(proto, layer, &k, value.as_str().unwrap_or(""), None, None).0 {
             Out::Ok(_) => true,
             Out::Err(_) => false,
             Out::Panic(l) => panic!("nested parse inside a validator panicked at {}", l),
         },
     };
+    if let Verdict::RejectWith(n) = VERDICTS.with(|t| t.borrow()[slot].clone()) {
+        let k = key.to_string();
+        return Err(match n {
+            0 => PasetoClaimError::Expired,
+            1 => PasetoClaimError::UseBeforeAvailable(k),
+            2 => PasetoClaimError::RFC3339Date(k),
+            3 => PasetoClaimError::Missing(k),
+            4 => PasetoClaimError::Unexpected(k),
+            5 => PasetoClaimError::CustomValidation(k),
+            6 => PasetoClaimError::Invalid(k, "expected".into(), "received".into()),
+            7 => PasetoClaimError::Reserved(k),
+            _ => PasetoClaimError::DuplicateTopLevelPayloadClaim(k),
+        });
+    }
     if ok {
         Ok(())
     } else {
